@@ -22,6 +22,7 @@ import (
 	"sort"
 	"strings"
 	"sync"
+	"sync/atomic"
 	"time"
 
 	"github.com/hedzr/is"
@@ -650,6 +651,10 @@ func c13Culprit(job c13Job, timeout time.Duration) (g *c13Group, tailLog string)
 }
 
 func c13Merge(r *Run, b *c13Batch, timeout time.Duration) {
+	if b.out == nil && b.err == "skipped" {
+		r.Dist["batches_skipped_after_a_hang"]++
+		return
+	}
 	if b.out == nil {
 		key := "C13/crash"
 		if strings.Contains(b.err, "no result within") {
@@ -716,7 +721,7 @@ func runC13(r *Run) {
 	}
 	seqs := c13Seqs(3)
 	perM := r.N(100, 80)
-	timeout := time.Duration(r.N(120, 900)) * time.Second
+	timeout := time.Duration(r.N(60, 600)) * time.Second
 	var batches []*c13Batch
 	for _, c := range chosen {
 		for _, L := range c13Levels {
@@ -724,6 +729,7 @@ func runC13(r *Run) {
 		}
 	}
 	sem := make(chan struct{}, 14)
+	var hung atomic.Bool
 	var wg sync.WaitGroup
 	for _, b := range batches {
 		wg.Add(1)
@@ -731,7 +737,14 @@ func runC13(r *Run) {
 		go func(b *c13Batch) {
 			defer wg.Done()
 			defer func() { <-sem }()
+			if hung.Load() { // do not wait for the timeout again and again
+				b.err = "skipped"
+				return
+			}
 			b.out, b.err, b.log = c13Spawn(b.job, timeout)
+			if b.out == nil && strings.Contains(b.err, "no result within") {
+				hung.Store(true)
+			}
 		}(b)
 	}
 	wg.Wait()
